@@ -271,7 +271,7 @@ func (t *fnTrans) indexAddr(in *ssa.IndexAddr) {
 		x := t.term(t.val(in.X))
 		t.oblige("safety", "index", "slice index in range", fmt.Sprintf("(and (<= 0 %s) (< %s (slen %s)))", i, i, x), in.Pos())
 		ev := t.elemsVar(u.Elem())
-		t.setVal(in, Val{P: &Path{ArrOf: ev.Name, Ref: fmt.Sprintf("(sbase %s)", x), Sels: []Sel{{Index: fmt.Sprintf("(+ (soff %s) %s)", x, i), Elem: u.Elem()}}}})
+		t.setVal(in, Val{P: &Path{ArrOf: ev.Name, Ref: fmt.Sprintf("(sbase %s)", x), Sels: []Sel{{Index: fmt.Sprintf("(ix (soff %s) %s)", x, i), Elem: u.Elem()}}}})
 	case *types.Pointer:
 		at := u.Elem().Underlying().(*types.Array)
 		t.oblige("safety", "index", "array index in range", fmt.Sprintf("(and (<= 0 %s) (< %s %d))", i, i, at.Len()), in.Pos())
@@ -659,50 +659,68 @@ func (t *fnTrans) frame(pos token.Pos) {
 	if t.fc == nil || !t.fc.HasMod {
 		return
 	}
+	for _, name := range sortedKeys(t.vars) {
+		if cond := t.frameCond(name, t.cur); cond != "" {
+			t.oblige("frame", name, "only locations listed in `modifies` change ("+name+")", cond, pos)
+		}
+	}
+}
+
+// modAllowed: per state variable, the references the contract's `modifies` clause allows to change
+// ("*" = the whole variable). Evaluated in the entry state.
+func (t *fnTrans) modAllowed() (map[string][]Term, bool) {
+	if t.allowedDone {
+		return t.allowed, t.allowedAll
+	}
+	t.allowedDone = true
+	t.allowed = map[string][]Term{}
 	env := t.entryEnv(t.entrySt)
-	allowed := map[string][]Term{} // var -> refs ("*" = whole)
 	for _, item := range t.fc.Modifies {
 		for _, mt := range t.resolveMod(item, env) {
 			if mt.all {
-				return
+				t.allowedAll = true
+				continue
 			}
 			if mt.ref == "" {
-				allowed[mt.name] = append(allowed[mt.name], "*")
+				t.allowed[mt.name] = append(t.allowed[mt.name], "*")
 			} else {
-				allowed[mt.name] = append(allowed[mt.name], mt.ref)
+				t.allowed[mt.name] = append(t.allowed[mt.name], mt.ref)
 			}
 		}
 	}
-	alloc0 := t.get(t.entrySt, "alloc")
-	for _, name := range sortedKeys(t.vars) {
-		sv := t.vars[name]
-		if !(sv.Heap || sv.Kind == "ghost") {
-			continue
+	return t.allowed, t.allowedAll
+}
+
+// frameCond: the frame condition of one state variable in state st relative to the entry state
+// ("" when the variable may change freely or did not change).
+func (t *fnTrans) frameCond(name string, st *State) Term {
+	if t.fc == nil || !t.fc.HasMod {
+		return ""
+	}
+	allowed, all := t.modAllowed()
+	if all {
+		return ""
+	}
+	sv := t.vars[name]
+	if sv == nil || !(sv.Heap || sv.Kind == "ghost") {
+		return ""
+	}
+	cur := t.get(st, name)
+	if cur == name+"_0" {
+		return ""
+	}
+	refs := allowed[name]
+	for _, r := range refs {
+		if r == "*" {
+			return ""
 		}
-		cur := t.get(t.cur, name)
-		if cur == name+"_0" {
-			continue
-		}
-		refs := allowed[name]
-		whole := false
+	}
+	if strings.HasPrefix(sv.Sort, "(Array Int") {
+		ex := ""
 		for _, r := range refs {
-			if r == "*" {
-				whole = true
-			}
+			ex += fmt.Sprintf(" (not (= fr %s))", r)
 		}
-		if whole {
-			continue
-		}
-		var cond Term
-		if strings.HasPrefix(sv.Sort, "(Array Int") {
-			ex := ""
-			for _, r := range refs {
-				ex += fmt.Sprintf(" (not (= fr %s))", r)
-			}
-			cond = fmt.Sprintf("(forall ((fr Int)) (=> (and (<= fr %s)%s) (= (select %s fr) (select %s_0 fr))))", alloc0, ex, cur, name)
-		} else {
-			cond = fmt.Sprintf("(= %s %s_0)", cur, name)
-		}
-		t.oblige("frame", name, "only locations listed in `modifies` change ("+name+")", cond, pos)
+		return fmt.Sprintf("(forall ((fr Int)) (! (=> (and (<= fr %s)%s) (= (select %s fr) (select %s_0 fr))) :pattern ((select %s fr))))", t.get(t.entrySt, "alloc"), ex, cur, name, cur)
 	}
+	return fmt.Sprintf("(= %s %s_0)", cur, name)
 }
